@@ -294,6 +294,407 @@ func (e *emitter) detailDef(s *source, rel, goName, leanName string) {
 	e.stringList(leanName, "statement skeleton (conditions, returns, calls, field stores) of `"+goName+"` in "+rel, s.detail(fd))
 }
 
+
+// ---------------------------------------------------------------------------------------------------------
+// round 4: semantic ties. A small translator of the decision chains and of calcExpireSeconds' arithmetic.
+
+// c03Expr translates an integer / comparison expression: identifiers, recv.field -> field, integer literals,
+// + - * / % (Go's truncating division: Int.tdiv / Int.tmod), comparisons (decide), conversions int()/int64(),
+// and the opaque readings `now.Unix()` -> nowUnix, `atomic.LoadUint32(&recv.f)` -> f.
+func c03Expr(recv string, e ast.Expr) (string, error) {
+	switch x := e.(type) {
+	case *ast.ParenExpr:
+		return c03Expr(recv, x.X)
+	case *ast.BasicLit:
+		if x.Kind == token.INT {
+			return x.Value, nil
+		}
+	case *ast.Ident:
+		return leanIdent(x.Name), nil
+	case *ast.SelectorExpr:
+		if id, ok := x.X.(*ast.Ident); ok && id.Name == recv {
+			return leanIdent(x.Sel.Name), nil
+		}
+	case *ast.BinaryExpr:
+		a, err := c03Expr(recv, x.X)
+		if err != nil {
+			return "", err
+		}
+		b, err := c03Expr(recv, x.Y)
+		if err != nil {
+			return "", err
+		}
+		switch x.Op {
+		case token.ADD, token.SUB, token.MUL:
+			return "(" + a + " " + x.Op.String() + " " + b + ")", nil
+		case token.QUO:
+			return "(Int.tdiv " + a + " " + b + ")", nil
+		case token.REM:
+			return "(Int.tmod " + a + " " + b + ")", nil
+		case token.LSS, token.LEQ, token.GTR, token.GEQ, token.EQL, token.NEQ:
+			op := map[token.Token]string{token.LSS: "<", token.LEQ: "≤", token.GTR: ">", token.GEQ: "≥", token.EQL: "=", token.NEQ: "≠"}[x.Op]
+			return "(decide (" + a + " " + op + " " + b + "))", nil
+		}
+	case *ast.CallExpr:
+		if id, ok := x.Fun.(*ast.Ident); ok && (id.Name == "int" || id.Name == "int64") && len(x.Args) == 1 {
+			return c03Expr(recv, x.Args[0])
+		}
+		if sel, ok := x.Fun.(*ast.SelectorExpr); ok && len(x.Args) == 0 {
+			if id, ok := sel.X.(*ast.Ident); ok && id.Name == "now" && sel.Sel.Name == "Unix" {
+				return "nowUnix", nil
+			}
+		}
+		if sel, ok := x.Fun.(*ast.SelectorExpr); ok && len(x.Args) == 1 {
+			if id, ok := sel.X.(*ast.Ident); ok && id.Name == "atomic" && sel.Sel.Name == "LoadUint32" {
+				if u, ok := x.Args[0].(*ast.UnaryExpr); ok && u.Op == token.AND {
+					return c03Expr(recv, u.X)
+				}
+			}
+		}
+	}
+	return "", fmt.Errorf("c03Expr: unsupported expression %T", e)
+}
+
+// c03ConstOf: value of a constant expression, including the names of the exported iota block of periodlimit.go
+func c03ConstOf(s *source, rel string, e ast.Expr) (string, bool) {
+	if id, ok := e.(*ast.Ident); ok {
+		for i, n := range iotaConsts(s, rel, "Unknown") {
+			if n == id.Name {
+				return fmt.Sprint(i), true
+			}
+		}
+	}
+	if cv, ok := s.eval(rel, e); ok {
+		return cv.ExactString(), true
+	}
+	return "", false
+}
+
+func recvName(fd *ast.FuncDecl) string {
+	if fd.Recv != nil && len(fd.Recv.List) == 1 && len(fd.Recv.List[0].Names) == 1 {
+		return fd.Recv.List[0].Names[0].Name
+	}
+	return ""
+}
+
+// calcExpire emits the arithmetic of PeriodLimit.calcExpireSeconds as Lean functions over Int:
+//   calcExpireCond : String                                    the condition of the if
+//   calcExpireAligned (period nowUnix offset : Int) : Int      the branch taken under it
+//   calcExpirePlain (period : Int) : Int                       the statement after it
+func (e *emitter) c03CalcExpire(s *source, rel string) {
+	fail := func(msg string) {
+		e.errors = append(e.errors, "calcExpireSeconds: "+msg)
+		e.printf("def calcExpireCond : String := \"MISSING\"\ndef calcExpireAligned (period nowUnix offset : Int) : Int := 0\ndef calcExpirePlain (period : Int) : Int := 0\n\n")
+	}
+	fd := s.findFunc(rel, "PeriodLimit.calcExpireSeconds")
+	if fd == nil || len(fd.Body.List) != 2 {
+		fail("unexpected shape")
+		return
+	}
+	recv := recvName(fd)
+	ifs, ok := fd.Body.List[0].(*ast.IfStmt)
+	ret, ok2 := fd.Body.List[1].(*ast.ReturnStmt)
+	if !ok || !ok2 || ifs.Else != nil || ifs.Init != nil || len(ret.Results) != 1 {
+		fail("unexpected shape")
+		return
+	}
+	var lets []string
+	result := ""
+	for _, st := range ifs.Body.List {
+		switch x := st.(type) {
+		case *ast.AssignStmt:
+			src := s.src(x)
+			if src == "now := time.Now()" || src == "_, offset := now.Zone()" {
+				continue // the two readings of the environment: nowUnix = now.Unix(), offset
+			}
+			if len(x.Lhs) != 1 || len(x.Rhs) != 1 || x.Tok != token.DEFINE {
+				fail("unsupported assignment " + src)
+				return
+			}
+			v, err := c03Expr(recv, x.Rhs[0])
+			if err != nil {
+				fail(err.Error())
+				return
+			}
+			lets = append(lets, "  let "+leanIdent(s.src(x.Lhs[0]))+" : Int := "+v+"\n")
+		case *ast.ReturnStmt:
+			if len(x.Results) != 1 {
+				fail("unsupported return")
+				return
+			}
+			v, err := c03Expr(recv, x.Results[0])
+			if err != nil {
+				fail(err.Error())
+				return
+			}
+			result = v
+		default:
+			fail("unsupported statement " + s.src(st))
+			return
+		}
+	}
+	plain, err := c03Expr(recv, ret.Results[0])
+	if err != nil || result == "" {
+		fail("no result")
+		return
+	}
+	e.printf("/-- condition of the if in calcExpireSeconds -/\ndef calcExpireCond : String := %s\n\n", leanString(s.src(ifs.Cond)))
+	e.printf("/-- translated from the `if %s` branch of calcExpireSeconds (nowUnix = now.Unix(), offset = second result of now.Zone()) -/\ndef calcExpireAligned (period nowUnix offset : Int) : Int :=\n%s  %s\n\n", s.src(ifs.Cond), strings.Join(lets, ""), result)
+	e.printf("/-- translated from the final return of calcExpireSeconds -/\ndef calcExpirePlain (period : Int) : Int := %s\n\n", plain)
+}
+
+// c03Chain translates the decision chain of a function (a sequence of `if cond { … return }` without else, a
+// `switch code`, a final return) into nested Lean if-then-else.  Conditions are mapped by `conds` (source text
+// -> Lean Bool term; a missing entry is an extraction error), unless the condition is an integer comparison the
+// expression translator understands; the value of a terminal block is computed by `val`.
+type c03Chain struct {
+	recv  string
+	conds map[string]string
+	val   func(s *source, body []ast.Stmt) (string, error)
+	skip  func(src string) bool
+}
+
+func (cc *c03Chain) cond(s *source, e ast.Expr) (string, error) {
+	if l, ok := cc.conds[s.src(e)]; ok {
+		return l, nil
+	}
+	if l, err := c03Expr(cc.recv, e); err == nil {
+		return l, nil
+	}
+	return "", fmt.Errorf("condition %q is not in the vocabulary", s.src(e))
+}
+
+func noLog(s *source, list []ast.Stmt) []ast.Stmt {
+	var out []ast.Stmt
+	for _, st := range list {
+		if x, ok := st.(*ast.ExprStmt); ok {
+			if c, ok := x.X.(*ast.CallExpr); ok && strings.HasPrefix(s.src(c.Fun), "logx.") {
+				continue
+			}
+		}
+		out = append(out, st)
+	}
+	return out
+}
+
+func (cc *c03Chain) walk(s *source, list []ast.Stmt) (string, error) {
+	list = noLog(s, list)
+	for i, st := range list {
+		switch x := st.(type) {
+		case *ast.AssignStmt:
+			if cc.skip(s.src(x)) {
+				continue
+			}
+			return "", fmt.Errorf("unexpected assignment %q", s.src(x))
+		case *ast.IfStmt:
+			if x.Else != nil || x.Init != nil {
+				return "", fmt.Errorf("unsupported if form")
+			}
+			c, err := cc.cond(s, x.Cond)
+			if err != nil {
+				return "", err
+			}
+			v, err := cc.val(s, noLog(s, x.Body.List))
+			if err != nil {
+				return "", err
+			}
+			rest, err := cc.walk(s, list[i+1:])
+			if err != nil {
+				return "", err
+			}
+			return "if " + c + " then " + v + "\n  else " + rest, nil
+		case *ast.SwitchStmt:
+			if x.Tag == nil || x.Init != nil || i != len(list)-1 {
+				return "", fmt.Errorf("unsupported switch form")
+			}
+			tag, err := c03Expr(cc.recv, x.Tag)
+			if err != nil {
+				return "", err
+			}
+			out, dflt := "", ""
+			for _, c := range x.Body.List {
+				cl := c.(*ast.CaseClause)
+				v, err := cc.val(s, noLog(s, cl.Body))
+				if err != nil {
+					return "", err
+				}
+				if cl.List == nil {
+					dflt = v
+					continue
+				}
+				var alts []string
+				for _, ce := range cl.List {
+					cv, ok := s.eval("core/limit/periodlimit.go", ce)
+					if !ok {
+						return "", fmt.Errorf("case %q is not a constant", s.src(ce))
+					}
+					alts = append(alts, "decide ("+tag+" = "+cv.ExactString()+")")
+				}
+				out += "if " + strings.Join(alts, " || ") + " then " + v + "\n  else "
+			}
+			if dflt == "" {
+				return "", fmt.Errorf("switch without default")
+			}
+			return out + dflt, nil
+		case *ast.ReturnStmt:
+			return cc.val(s, list[i:])
+		default:
+			return "", fmt.Errorf("unsupported statement %q", s.src(st))
+		}
+	}
+	return "", fmt.Errorf("chain does not end in a return")
+}
+
+func (e *emitter) c03TakeChain(s *source, rel string) {
+	sig := "def takeChain (errNonNil isInt : Bool) (code : Int) : Int × Int :="
+	fd := s.findFunc(rel, "PeriodLimit.TakeCtx")
+	if fd == nil {
+		e.errors = append(e.errors, "TakeCtx not found")
+		e.printf("%s (0, 0)\n\n", sig)
+		return
+	}
+	cc := &c03Chain{recv: recvName(fd),
+		conds: map[string]string{"err != nil": "errNonNil", "!ok": "(!isInt)"},
+		skip: func(src string) bool {
+			return strings.HasPrefix(src, "resp, err := h.limitStore.ScriptRunCtx(") || src == "code, ok := resp.(int64)"
+		},
+		val: func(s *source, body []ast.Stmt) (string, error) {
+			if len(body) != 1 {
+				return "", fmt.Errorf("block is not a single return")
+			}
+			r, ok := body[0].(*ast.ReturnStmt)
+			if !ok || len(r.Results) != 2 {
+				return "", fmt.Errorf("block is not a two-valued return")
+			}
+			cvs, ok := c03ConstOf(s, rel, r.Results[0])
+			if !ok {
+				return "", fmt.Errorf("returned code %q is not a constant", s.src(r.Results[0]))
+			}
+			ek, ok := map[string]string{"nil": "0", "err": "1", "ErrUnknownCode": "2"}[s.src(r.Results[1])]
+			if !ok {
+				return "", fmt.Errorf("returned error %q is not in the vocabulary", s.src(r.Results[1]))
+			}
+			return "(" + cvs + ", " + ek + ")", nil
+		}}
+	body, err := cc.walk(s, fd.Body.List)
+	if err != nil {
+		e.errors = append(e.errors, "TakeCtx: "+err.Error())
+		e.printf("%s (0, 0)\n\n", sig)
+		return
+	}
+	e.printf("/-- translated from the decision chain of PeriodLimit.TakeCtx: (returned code, error kind 0 nil / 1 the store's err / 2 ErrUnknownCode);\nerrNonNil = `err != nil`, isInt = `ok` of `resp.(int64)` -/\n%s\n  %s\n\n", sig, body)
+}
+
+func (e *emitter) c03ReserveChain(s *source, rel string) {
+	sig := "def reserveChain (redisAlive : Int) (isNil isCtx errNonNil isInt : Bool) (code : Int) : Int :="
+	fd := s.findFunc(rel, "TokenLimiter.reserveN")
+	if fd == nil {
+		e.errors = append(e.errors, "reserveN not found")
+		e.printf("%s 9\n\n", sig)
+		return
+	}
+	recv := recvName(fd)
+	cc := &c03Chain{recv: recv,
+		conds: map[string]string{
+			"errors.Is(err, redis.Nil)":                                      "isNil",
+			"errorx.In(err, context.DeadlineExceeded, context.Canceled)":     "isCtx",
+			"err != nil":                                                     "errNonNil",
+			"!ok":                                                            "(!isInt)",
+		},
+		skip: func(src string) bool {
+			return strings.HasPrefix(src, "resp, err := lim.store.ScriptRunCtx(") || src == "code, ok := resp.(int64)"
+		},
+		val: func(s *source, body []ast.Stmt) (string, error) {
+			var srcs []string
+			for _, b := range body {
+				srcs = append(srcs, s.src(b))
+			}
+			switch strings.Join(srcs, "; ") {
+			case "return false":
+				return "0", nil
+			case "return lim.rescueLimiter.AllowN(now, n)":
+				return "3", nil // the local limiter decides, no monitor is started
+			case "lim.startMonitor(); return lim.rescueLimiter.AllowN(now, n)":
+				return "2", nil // startMonitor, then the local limiter decides
+			}
+			if len(body) == 1 {
+				if r, ok := body[0].(*ast.ReturnStmt); ok && len(r.Results) == 1 {
+					if v, err := c03Expr(recv, r.Results[0]); err == nil {
+						return "(if " + v + " then 1 else 0)", nil
+					}
+				}
+			}
+			return "", fmt.Errorf("block %q is not in the vocabulary", strings.Join(srcs, "; "))
+		}}
+	body, err := cc.walk(s, fd.Body.List)
+	if err != nil {
+		e.errors = append(e.errors, "reserveN: "+err.Error())
+		e.printf("%s 9\n\n", sig)
+		return
+	}
+	e.printf("/-- translated from the decision chain of TokenLimiter.reserveN: 0 = return false, 1 = return true, 2 = startMonitor + local limiter,\n3 = local limiter only; isNil = errors.Is(err, redis.Nil), isCtx = errorx.In(err, DeadlineExceeded, Canceled) -/\n%s\n  %s\n\n", sig, body)
+}
+
+// c03LuaToks emits the raw tokens of a Lua file (lexer of c19.go) for LuaSem.lean
+func (e *emitter) c03LuaToks(rel, lean string) {
+	raw, err := os.ReadFile(filepath.Join(*repo, rel))
+	if err != nil {
+		e.errors = append(e.errors, "cannot read "+rel)
+		e.printf("def %s : List (Nat × String × Nat) := [(9, \"MISSING\", 0)]\n\n", lean)
+		return
+	}
+	toks, err := luaTokens(string(raw))
+	if err != nil {
+		e.errors = append(e.errors, rel+": "+err.Error())
+	}
+	e.printf("/-- tokens of %s as (kind, text, value): 0 word/punctuation, 1 string literal, 2 number -/\ndef %s : List (Nat × String × Nat) := [", rel, lean)
+	for i, t := range toks {
+		if i > 0 {
+			e.printf(",")
+		}
+		switch {
+		case strings.HasPrefix(t, "\""):
+			e.printf("\n  (1, %s, 0)", leanString(t[1:len(t)-1]))
+		case t[0] >= '0' && t[0] <= '9':
+			e.printf("\n  (2, \"\", %s)", t)
+		default:
+			e.printf("\n  (0, %s, 0)", leanString(t))
+		}
+	}
+	e.printf("]\n\n")
+}
+
+// scriptBinding: ["<scriptVar> = NewScript(<src var>)", "embed <file>"] for a package-level script variable
+func scriptBinding(s *source, rel, name string) []string {
+	srcVar, ok := "", false
+	if f := s.file(rel); f != nil {
+		ast.Inspect(f, func(n ast.Node) bool {
+			vs, isVs := n.(*ast.ValueSpec)
+			if !isVs {
+				return true
+			}
+			for i, nm := range vs.Names {
+				if nm.Name == name && i < len(vs.Values) {
+					if call, isCall := vs.Values[i].(*ast.CallExpr); isCall && len(call.Args) == 1 && s.src(call.Fun) == "redis.NewScript" {
+						if a, isId := call.Args[0].(*ast.Ident); isId {
+							srcVar, ok = a.Name, true
+						}
+					}
+				}
+			}
+			return true
+		})
+	}
+	if !ok {
+		return []string{"MISSING " + name}
+	}
+	file, ok := embedOf(s, rel, srcVar)
+	if !ok {
+		return []string{name + " = NewScript(" + srcVar + ")", "MISSING embed"}
+	}
+	return []string{name + " = NewScript(" + srcVar + ")", "embed " + file}
+}
+
 func init() {
 	register("C03", func(s *source, e *emitter) {
 		const pf = "core/limit/periodlimit.go"
@@ -344,5 +745,23 @@ func init() {
 		e.stringList("limiterFields", "rate, burst and store fields of the TokenLimiter literal in NewTokenLimiter",
 			[]string{fieldInit(s, tf, "NewTokenLimiter", "rate"), fieldInit(s, tf, "NewTokenLimiter", "burst"),
 				fieldInit(s, tf, "NewTokenLimiter", "store")})
+
+		// round 4: semantic ties and the store client's script path
+		const rf = "core/stores/redis/redis.go"
+		e.c03LuaToks("core/limit/periodscript.lua", "periodLuaToks")
+		e.c03CalcExpire(s, pf)
+		e.c03TakeChain(s, pf)
+		e.c03ReserveChain(s, tf)
+		e.stringList("periodScriptBinding", "which text the script variable of periodlimit.go runs", scriptBinding(s, pf, "periodScript"))
+		e.stringList("tokenScriptBinding", "which text the script variable of tokenlimit.go runs", scriptBinding(s, tf, "tokenScript"))
+		e.detailDefFull(s, tf, "NewTokenLimiter", "newTokenLimiterShape")
+		e.detailDefFull(s, pf, "NewPeriodLimit", "newPeriodLimitShape")
+		e.detailDef(s, rf, "Redis.ScriptRunCtx", "scriptRunCtxShape")
+		e.detailDef(s, rf, "Redis.ScriptRun", "scriptRunShape")
+		e.detailDef(s, rf, "NewScript", "newScriptShape")
+		e.detailDef(s, rf, "getRedis", "getRedisShape")
+		e.detailDef(s, rf, "acceptable", "acceptableShape")
+		e.detailDef(s, rf, "Redis.Ping", "pingShape")
+		e.detailDef(s, rf, "Redis.PingCtx", "pingCtxShape")
 	})
 }
